@@ -24,6 +24,9 @@ Alpha == <<
   "lui t0, 524288", "and t1, t0, zero", "neg t1, t0",
   "la t1, D1", "lw t0, 0(t1)", "sw t0, 0(t1)",
   "li a7, 5\n    ecall", "li a7, 1\n    ecall", "li a7, 9\n    ecall",
+  \* calls whose number is not in the table or not a constant: a0/a1 are results of the environment afterwards
+  "li a7, 51\n    ecall", "mv a7, a0\n    ecall", "li a0, 10", "li a1, 93",
+  "li a0, 10\n    li a7, 51\n    ecall\n    mv a7, a0\n    ecall", "li a1, 10\n    lw a7, 0(sp)\n    ecall\n    mv a7, a1\n    ecall",
   "call F", "mv a0, t0\n    call F",
   "beqz t0, K", "bnez a0, K", "j K",
   "jal t1, K", "li t1, 5\n    jal t1, K",
